@@ -3,6 +3,9 @@
 # directory (never /verif/evidence) and report every non-zero exit, VIOLATION, HARNESS-ERROR or
 # warning. Acceptance criterion of DESIGN §6.3.
 tier=$1; shift
+# always from /repo's current working tree (a binary left over from a run against a patched tree
+# would report that patch's violations)
+(cd /verif/sim && CARGO_NET_OFFLINE=true cargo build --release --offline 2>&1 | tail -1)
 out=/tmp/soak-out; mkdir -p $out; cp /verif/known-findings.json $out/
 bad=0
 for seed in "$@"; do
